@@ -48,8 +48,8 @@ MBT = {
 }
 
 
-def cfg_for(n, abs_mode):
-    base = "RaftTrace" + ("Abs" if abs_mode else "") + ("" if n == 3 else str(n))
+def cfg_for(n, abs_mode, timing=""):
+    base = "RaftTrace" + ("Abs" if abs_mode else "") + ("" if n == 3 else str(n)) + timing
     return base + ".cfg"
 
 
@@ -130,12 +130,27 @@ def run_walks(prop, tier, vraft, work, verdict, stats, budget_factor=1):
                 if r.returncode != 0:
                     raise vlib.ToolError("vraft walk (fork) failed: %s" % (r.stderr or "")[-300:])
                 fork_files.append(fo)
+                # and 30 adversarial continuations: the node on which the code left the model is cut off while the others
+                # elect a leader and take appends, then the network heals
+                node = x["event"].get("node")
+                if isinstance(node, int):
+                    fo2 = os.path.join(pw, "forkiso_%d.ndjson" % x["run"])
+                    r = vlib.run_bin(vraft, ["walk"] + args + ["--first", x["run"], "--programs", 1, "--fork-step", x["event_index"],
+                                                               "--fork-count", 30, "--fork-steps", 150, "--fork-isolate", node,
+                                                               "--work", pw, "--out", fo2], timeout=300)
+                    if r.returncode != 0:
+                        raise vlib.ToolError("vraft walk (isolating fork) failed: %s" % (r.stderr or "")[-300:])
+                    fork_files.append(fo2)
             if fork_files:
                 ftrace = os.path.join(pw, "forks.ndjson")
                 vlib.concat_traces(fork_files, ftrace)
                 vf = raftlib.validate(ftrace, cfg=cfg_for(n, True), tag=prop.lower() + name + "fork")
-                log("[%s] %d continuations of the %d drifting executions: events=%d property-violations=%d" %
-                    (prop, vf["runs"], len(fork_files), vf["events"], len(vf["props"])))
+                hist = {}
+                for p_ in vf["props"]:
+                    k_ = "%s:%s" % (p_["property"], "+".join(sorted(p_["trig"])) or "none")
+                    hist[k_] = hist.get(k_, 0) + 1
+                log("[%s] %d continuations of the %d drifting executions: events=%d property-violations=%d %s" %
+                    (prop, vf["runs"], len(fork_files), vf["events"], len(vf["props"]), hist))
                 stats["runs"] += vf["runs"]
                 stats["events"] += vf["events"]
                 stats["tlc_wall"] += vf["wall"]
